@@ -120,8 +120,9 @@ Section Drivers.
   Section SX127x.
     Variables (h : cfg127) (quirk : bool).
     Hypothesis HT : h_tcxo h = tc.
-    Definition xl127 (li : bool) : mctx := x127 tc dc li.
-    Definition ko127 (li : bool) : kind_ok (xl127 li) (kind127 h quirk) := kind127_ok tc dc li h quirk HT.
+    (* x_lora = true: the selection of the LoRa modem counts among what every start depends on *)
+    Definition xl127 (li : bool) : mctx := x127 tc dc li true.
+    Definition ko127 (li : bool) : kind_ok (xl127 li) (kind127 h quirk) := kind127_ok tc dc li true h quirk HT.
     Definition I127 : drv -> mon -> Prop := I xl127 (kind127 h quirk) ko127.
     Lemma inv_eq_127 d m : Inv (xl127 true) (kind127 h quirk) (ko127 true) d m <-> I127 d m.
     Proof. split; intros H; exact H. Qed.
